@@ -16,13 +16,19 @@
      seconds (time.Now().Unix(), int64(d.Seconds())), the idempotency result
      cache in milliseconds (UnixMilli, seconds*1000).  Durations are given
      in milliseconds.
-   * Go maps are total functions N -> option _ (pointwise updates); the two
-     expiry priority queues of historyHub are modelled by their meaning, the
-     maps expires / removes of current deadlines: a sweep handles exactly the
-     channels whose current deadline is due (the heap keeps one entry per
-     map key with priority <= the current deadline and re-pushes entries whose
-     deadline moved; the real goroutine loops are exercised by the
-     correspondence run).
+   * Go maps are total functions N -> option _ (pointwise updates).  Each of
+     the two expiry priority queues of historyHub holds exactly one entry per
+     key of its deadline map (an entry is pushed only when the key is absent
+     from the map and dropped only together with the key), so a deadline map
+     and its queue are modelled as ONE map channel -> (current deadline,
+     priority of the queued entry) ([h_exp], [h_rem]).
+     A sweep pops every entry whose PRIORITY is due: if the current deadline is
+     due as well the channel is handled, otherwise the entry is re-pushed with
+     the current deadline.  Note the quirk this mirrors: when a deadline is
+     moved EARLIER (a later publish with a shorter TTL) the queued priority
+     stays at the older, later instant and the sweep acts only then.
+     The nextExpireCheck / nextRemoveCheck guards are transparent (they are
+     always <= the smallest queued priority) and are not modelled.
    * uint64 wrap-around is modelled where an adversarial input reaches it
      (since.Offset+1, since.Offset-1); the top offset itself is unbounded
      (2^64 publications are out of reach).
@@ -145,8 +151,8 @@ Inductive out :=
 
 Record hub := mkHub {
   h_streams : N -> option stream;
-  h_expires : N -> option N;             (* seconds *)
-  h_removes : N -> option N;             (* seconds *)
+  h_exp : N -> option (N * N);           (* expires[ch] (s), priority of ch's expireQueue entry *)
+  h_rem : N -> option (N * N);           (* removes[ch] (s), priority of ch's removeQueue entry *)
   h_cache : N -> N -> option (N * N * N);(* ch, key -> offset, epoch, ExpireAt ms *)
   h_now : N;                             (* ms *)
   h_fresh : N;                           (* next stream epoch *)
@@ -162,15 +168,30 @@ Definition hub_init (now meta : N) : hub :=
 Definition now_s (h : hub) : N := h_now h / 1000.
 Definition secs (ms : N) : N := ms / 1000.
 
+Definition h_expires (h : hub) (ch : N) : option N := option_map fst (h_exp h ch).
+Definition h_removes (h : hub) (ch : N) : option N := option_map fst (h_rem h ch).
+
 Definition eff_meta (h : hub) (m : N) : N := if m =? 0 then h_meta h else m.
 
+(* "if _, ok := m[ch]; !ok { heap.Push(&q, {ch, v}) }; m[ch] = v":
+   the queued priority is kept when the key exists *)
+Definition set_deadline (m : N -> option (N * N)) (ch v : N) : N -> option (N * N) :=
+  upd m ch (Some (v, match m ch with Some (_, q) => q | None => v end)).
+
 (* "if historyMetaTTL > 0 { removes[ch] = now + seconds }" *)
-Definition touch_meta (h : hub) (ch m : N) : N -> option N :=
+Definition touch_meta (h : hub) (ch m : N) : N -> option (N * N) :=
   let m' := eff_meta h m in
-  if 0 <? m' then upd (h_removes h) ch (Some (now_s h + secs m')) else h_removes h.
+  if 0 <? m' then set_deadline (h_rem h) ch (now_s h + secs m') else h_rem h.
 
 Definition ver_skip (s : stream) (o : popts) : bool :=
   (0 <? po_ver o) && ((po_vep o =? 0) || (po_vep o =? s_vep s)) && (po_ver o <=? s_ver s).
+
+(* the deadline bookkeeping of historyHub.add *)
+Definition book (h : hub) (ch : N) (o : popts) (streams : N -> option stream) (fresh : N) : hub :=
+  mkHub streams
+        (set_deadline (h_exp h) ch (now_s h + secs (po_ttl o)))
+        (touch_meta h ch (po_meta o))
+        (h_cache h) (h_now h) fresh (h_meta h).
 
 (* historyHub.add (UseDelta = false): hub', position, skip *)
 Definition hub_add (h : hub) (ch id : N) (o : popts) : hub * (N * N) * bool :=
@@ -180,41 +201,25 @@ Definition hub_add (h : hub) (ch id : N) (o : popts) : hub * (N * N) * bool :=
       if ver_skip s o then (h, (s_top s, s_epoch s), true)
       else
         let s' := s_add s id size (po_ver o) (po_vep o) in
-        (mkHub (upd (h_streams h) ch (Some s'))
-               (upd (h_expires h) ch (Some (now_s h + secs (po_ttl o))))
-               (touch_meta h ch (po_meta o))
-               (h_cache h) (h_now h) (h_fresh h) (h_meta h),
-         (s_top s', s_epoch s'), false)
+        (book h ch o (upd (h_streams h) ch (Some s')) (h_fresh h), (s_top s', s_epoch s'), false)
   | None =>
       let s' := s_add (s_new (h_fresh h)) id size (po_ver o) (po_vep o) in
-      (mkHub (upd (h_streams h) ch (Some s'))
-             (upd (h_expires h) ch (Some (now_s h + secs (po_ttl o))))
-             (touch_meta h ch (po_meta o))
-             (h_cache h) (h_now h) (h_fresh h + 1) (h_meta h),
-       (s_top s', s_epoch s'), false)
+      (book h ch o (upd (h_streams h) ch (Some s')) (h_fresh h + 1), (s_top s', s_epoch s'), false)
   end.
 
 (* the unpatched historyHub.add: expiry bookkeeping precedes the version check
    and Add overwrites the stored version *)
 Definition hub_add_unfixed (h : hub) (ch id : N) (o : popts) : hub * (N * N) * bool :=
   let size := Z.to_nat (po_size o) in
-  let exps := upd (h_expires h) ch (Some (now_s h + secs (po_ttl o))) in
-  let rems := touch_meta h ch (po_meta o) in
   match h_streams h ch with
   | Some s =>
-      if ver_skip s o then
-        (mkHub (h_streams h) exps rems (h_cache h) (h_now h) (h_fresh h) (h_meta h),
-         (s_top s, s_epoch s), true)
+      if ver_skip s o then (book h ch o (h_streams h) (h_fresh h), (s_top s, s_epoch s), true)
       else
         let s' := s_add_unfixed s id size (po_ver o) (po_vep o) in
-        (mkHub (upd (h_streams h) ch (Some s')) exps rems
-               (h_cache h) (h_now h) (h_fresh h) (h_meta h),
-         (s_top s', s_epoch s'), false)
+        (book h ch o (upd (h_streams h) ch (Some s')) (h_fresh h), (s_top s', s_epoch s'), false)
   | None =>
       let s' := s_add_unfixed (s_new (h_fresh h)) id size (po_ver o) (po_vep o) in
-      (mkHub (upd (h_streams h) ch (Some s')) exps rems
-             (h_cache h) (h_now h) (h_fresh h + 1) (h_meta h),
-       (s_top s', s_epoch s'), false)
+      (book h ch o (upd (h_streams h) ch (Some s')) (h_fresh h + 1), (s_top s', s_epoch s'), false)
   end.
 
 (* getResultFromCache: a stored result whose ExpireAt <= now is a miss *)
@@ -229,7 +234,7 @@ Definition result_secs (o : popts) : N :=
 
 (* saveResultToCache *)
 Definition cache_save (h : hub) (ch key : N) (pos : N * N) (rs : N) : hub :=
-  mkHub (h_streams h) (h_expires h) (h_removes h)
+  mkHub (h_streams h) (h_exp h) (h_rem h)
         (fun c k => if (c =? ch) && (k =? key)
                     then Some (fst pos, snd pos, h_now h + rs * 1000)
                     else h_cache h c k)
@@ -262,7 +267,7 @@ Definition hub_get (h : hub) (ch : N) (f : hfilter) (meta : N) : hub * out :=
   let rems := touch_meta h ch meta in
   match h_streams h ch with
   | None =>
-      (mkHub (upd (h_streams h) ch (Some (s_new (h_fresh h)))) (h_expires h) rems
+      (mkHub (upd (h_streams h) ch (Some (s_new (h_fresh h)))) (h_exp h) rems
              (h_cache h) (h_now h) (h_fresh h + 1) (h_meta h),
        OHist [] 0 (h_fresh h))
   | Some s =>
@@ -273,40 +278,54 @@ Definition hub_get (h : hub) (ch : N) (f : hfilter) (meta : N) : hub * out :=
             if negb (f_rev f) && (s_top s =? so) && (se =? s_epoch s) then []
             else sget s (if f_rev f then wsub1 so else wadd1 so) true (f_limit f) (f_rev f)
         end in
-      (mkHub (h_streams h) (h_expires h) rems (h_cache h) (h_now h) (h_fresh h) (h_meta h),
+      (mkHub (h_streams h) (h_exp h) rems (h_cache h) (h_now h) (h_fresh h) (h_meta h),
        OHist items (s_top s) (s_epoch s))
   end.
 
 (* historyHub.remove *)
 Definition hub_remove (h : hub) (ch : N) : hub :=
   match h_streams h ch with
-  | Some s => mkHub (upd (h_streams h) ch (Some (s_clear s))) (h_expires h) (h_removes h)
+  | Some s => mkHub (upd (h_streams h) ch (Some (s_clear s))) (h_exp h) (h_rem h)
                     (h_cache h) (h_now h) (h_fresh h) (h_meta h)
   | None => h
   end.
 
-Definition due (h : hub) (d : option N) : bool :=
-  match d with Some x => x <=? now_s h | None => false end.
+(* One channel's view of a sweep loop.  The channel's queue entry (priority q)
+   is popped when q is due; if the current deadline d is due too ("exp <=
+   expireAt", or, after the re-push with priority exp, "exp <= exp") the
+   channel is handled and its key deleted; otherwise the entry is re-pushed
+   with the current deadline.  (The "!ok -> continue" branch is unreachable:
+   a key leaves the map only together with its entry.)
+   Result: fires?, new map value. *)
+Definition sweep1 (now : N) (e : option (N * N)) : bool * option (N * N) :=
+  match e with
+  | None => (false, None)
+  | Some (d, q) =>
+      if q <=? now then
+        if d <=? now then (true, None) else (false, Some (d, d))
+      else (false, e)
+  end.
 
-(* expireStreams body: every channel whose history deadline is due loses its
-   deadline and its retained items (Clear keeps top, epoch and version) *)
+(* expireStreams body: Clear keeps top, epoch and version *)
 Definition sweep_expire (h : hub) : hub :=
-  mkHub (fun c => if due h (h_expires h c)
-                  then match h_streams h c with Some s => Some (s_clear s) | None => None end
-                  else h_streams h c)
-        (fun c => if due h (h_expires h c) then None else h_expires h c)
-        (h_removes h) (h_cache h) (h_now h) (h_fresh h) (h_meta h).
+  mkHub (fun c => let s := h_streams h c in
+                  if fst (sweep1 (now_s h) (h_exp h c))
+                  then match s with Some s => Some (s_clear s) | None => None end
+                  else s)
+        (fun c => snd (sweep1 (now_s h) (h_exp h c)))
+        (h_rem h) (h_cache h) (h_now h) (h_fresh h) (h_meta h).
 
-(* removeStreams body: every channel whose meta deadline is due is forgotten *)
+(* removeStreams body: the stream and its removes entry are forgotten
+   (expires[ch] and its queue entry stay behind) *)
 Definition sweep_remove (h : hub) : hub :=
-  mkHub (fun c => if due h (h_removes h c) then None else h_streams h c)
-        (h_expires h)
-        (fun c => if due h (h_removes h c) then None else h_removes h c)
+  mkHub (fun c => if fst (sweep1 (now_s h) (h_rem h c)) then None else h_streams h c)
+        (h_exp h)
+        (fun c => snd (sweep1 (now_s h) (h_rem h c)))
         (h_cache h) (h_now h) (h_fresh h) (h_meta h).
 
 (* expireResultCache body *)
 Definition sweep_cache (h : hub) : hub :=
-  mkHub (h_streams h) (h_expires h) (h_removes h)
+  mkHub (h_streams h) (h_exp h) (h_rem h)
         (fun c k => match h_cache h c k with
                     | Some (off, ep, exp) => if exp <=? h_now h then None else Some (off, ep, exp)
                     | None => None
@@ -314,7 +333,7 @@ Definition sweep_cache (h : hub) : hub :=
         (h_now h) (h_fresh h) (h_meta h).
 
 Definition advance (h : hub) (d : N) : hub :=
-  mkHub (h_streams h) (h_expires h) (h_removes h) (h_cache h) (h_now h + d) (h_fresh h) (h_meta h).
+  mkHub (h_streams h) (h_exp h) (h_rem h) (h_cache h) (h_now h + d) (h_fresh h) (h_meta h).
 
 Definition step_with (pb : hub -> N -> N -> popts -> hub * out) (h : hub) (o : op) : hub * out :=
   match o with
@@ -339,3 +358,27 @@ Fixpoint run_with (st : hub -> op -> hub * out) (h : hub) (ops : list op) : hub 
 
 Definition run := run_with step.
 Definition run_unfixed := run_with step_unfixed.
+
+(* Deadlines of a channel never move earlier: the condition under which the
+   queued priorities never exceed the current deadlines, i.e. under which
+   "due" means what the specification says.  It holds for every sequence in
+   which each channel is always published with one history TTL and accessed
+   with one metadata TTL (the clock is monotone). *)
+Definition dl_ok (d : option N) (v : N) : bool :=
+  match d with Some e => e <=? v | None => true end.
+Definition meta_ok (h : hub) (ch m : N) : bool :=
+  let m' := eff_meta h m in
+  if 0 <? m' then dl_ok (h_removes h ch) (now_s h + secs m') else true.
+Definition mono_ok (h : hub) (o : op) : bool :=
+  match o with
+  | Publish ch _ po =>
+      negb (history_on po) ||
+      (dl_ok (h_expires h ch) (now_s h + secs (po_ttl po)) && meta_ok h ch (po_meta po))
+  | History ch _ m => meta_ok h ch m
+  | _ => true
+  end.
+Fixpoint run_mono (h : hub) (ops : list op) : bool :=
+  match ops with
+  | [] => true
+  | o :: r => mono_ok h o && run_mono (fst (step h o)) r
+  end.
